@@ -6,7 +6,8 @@ import vlib
 
 IMPORTS = ["Block.Model", "Block.Corr"]
 FIELD = {0: "oracle only", 1: "result", 2: "read data / candidate list", 3: "live image", 4: "chain names",
-         5: "member attributes", 6: "snapshot images (NewReadOnly)", 7: "revert-on-copy images", 8: "size", 9: "trace length"}
+         5: "member attributes", 6: "snapshot images (NewReadOnly)", 7: "revert-on-copy images", 8: "size", 9: "trace length",
+         10: "implementation error / panic"}
 ORACLES = ["c01", "c06", "c11", "c16"]
 
 # ------------------------------------------------------------------------------------------ operations
@@ -436,10 +437,16 @@ def run_cases(ctx, binpath, cases, tag="blk", workers=16, shard=24):
         cs.append(d)
     outs = vlib.run_harness(ctx, binpath, cs, tag=tag, workers=min(workers, max(1, len(cs))))
     terms = []
+    failed = []
     for c in cs:
         o = outs[c["id"]]
         if o.get("err"):
-            raise RuntimeError("harness error on case %d: %s\n%s" % (c["id"], o["err"], json.dumps(c)))
+            # the implementation panicked / failed to serve an observation inside a history of valid
+            # operations: reported as a failure of every oracle (field 10); the model is not consulted
+            failed.append(dict(case=c["id"], step=len(o.get("obs", [])), field=10, c01=False, c06=False,
+                               c11=False, c16=False, err=o["err"]))
+            o = dict(o, obs=[], tbl=[])
+            c = dict(c, ops=[])
         terms.append(case_term(c, o))
     v = variant()
     if v is None:
@@ -447,7 +454,7 @@ def run_cases(ctx, binpath, cases, tag="blk", workers=16, shard=24):
     else:
         qs = lambda l: ["bad_cases_v %s 0 %s" % (v, l), "coverage_v %s %s" % (v, l)]
     res = vlib.coq_eval_sharded(ctx, tag, IMPORTS, terms, qs, shard=shard)
-    bad = []
+    bad = list(failed)
     cov = [0] * len(cs)
     for off, vals in res:
         for item in vlib.parse_coq_list(vals[0]):
@@ -459,7 +466,20 @@ def run_cases(ctx, binpath, cases, tag="blk", workers=16, shard=24):
     return bad, cov, outs
 
 
-def shrink(ctx, binpath, case, still_bad, tag="shr", rounds=8):
+def valid_io(case):
+    """every read / write stays inside the size the volume has at that point (the replica itself does not
+    check this: the controller does)"""
+    nb = case["nb"]
+    K = case["K"]
+    for o in case["ops"]:
+        if o["k"] == "resize" and o["nb"] >= nb:
+            nb = o["nb"]
+        if o["k"] in ("w", "r") and o["off"] + o["len"] > nb * K:
+            return False
+    return True
+
+
+def shrink(ctx, binpath, case, still_bad, tag="shr", rounds=24):
     """greedy delta debugging on one case: drop operations, then shrink write lengths"""
     cur = copy.deepcopy(case)
     n = 0
@@ -471,7 +491,7 @@ def shrink(ctx, binpath, case, still_bad, tag="shr", rounds=8):
         for i in range(len(cur["ops"])):
             c = copy.deepcopy(cur)
             del c["ops"][i]
-            if c["ops"]:
+            if c["ops"] and valid_io(c):
                 cands.append(c)
         if not cands:
             break
